@@ -722,6 +722,12 @@ func (b *Builder) UnBounded(o interface{}, x bool) {
 
 func (b *Builder) Default(o interface{}, defaultVal string) {
 	if h, valid := o.(HasDefault); valid {
+		_, severalAllowed := o.(HasDefaultValues)
+		if has, canTell := o.(interface{ HasDefault() bool }); canTell && has.HasDefault() && !severalAllowed {
+			// adding a second one panics
+			b.setErr(fmt.Errorf("%T - default already set", o))
+			return
+		}
 		h.addDefault(defaultVal)
 	} else {
 		b.setErr(fmt.Errorf("%T does not support default", o))
